@@ -31,7 +31,8 @@ BACKENDS = {
 
 FILE_SHAPES = ["one-path", "one-str", "two-same-dir", "two-diff-dir", "missing-alone", "missing-second", "empty", "three-same-dir-order"]
 BEHAVIOURS = [("ok", k, None) for k in (0, 1, 2)] + [("no-result", 1, None), ("fail-at-call", 0, None)] + \
-             [("fail", k, i) for k in (0, 1, 2) for i in range(0, k + 1)]
+             [("fail", k, i) for k in (0, 1, 2) for i in range(0, k + 1)] + \
+             [("fail-wr", k, (i, w)) for k in (0, 1, 2) for i in range(0, k + 1) for w in range(0, i + 1)]   # result file written before chunk w, failure at i
 
 
 def one_case(case):
@@ -87,17 +88,22 @@ def one_case(case):
         python_on_whales.CALLS.clear()
         kind, k, fail_i = beh
         chunks = [("stdout" if i % 2 == 0 else "stderr", f"chunk{i}\n".encode()) for i in range(k)]
-        python_on_whales.PLAN.update(chunks=chunks, fail_after=fail_i if kind == "fail" else None, fail_at_call=(kind == "fail-at-call"),
-                                     write_result=(kind != "no-result"), nonce=f"{os.getpid()}")
+        write_before = None
+        if kind == "fail-wr":
+            fail_i, write_before = fail_i
+
+        def set_plan():
+            python_on_whales.PLAN.update(chunks=chunks, fail_after=fail_i if kind in ("fail", "fail-wr") else None, fail_at_call=(kind == "fail-at-call"),
+                                         write_result=(kind != "no-result"), nonce=f"{os.getpid()}", write_before=write_before)
+        set_plan()
         if prior:
             # history: an earlier, successful execution into the same output directory
-            python_on_whales.PLAN.update(chunks=[], fail_after=None, fail_at_call=False, write_result=True, nonce="PRIOR")
+            python_on_whales.PLAN.update(chunks=[], fail_after=None, fail_at_call=False, write_result=True, nonce="PRIOR", write_before=None)
             pds = cls(d1 / "a.root", output_directory=outdir) if outdir is not None else cls(d1 / "a.root")
             pr = pds.Select(f"lambda e: e.{coll}('A').Count()").value()
             obs["prior_returned"] = [str(x) for x in pr]
             python_on_whales.CALLS.clear()
-            python_on_whales.PLAN.update(chunks=chunks, fail_after=fail_i if kind == "fail" else None, fail_at_call=(kind == "fail-at-call"),
-                                         write_result=(kind != "no-result"), nonce=f"{os.getpid()}")
+            set_plan()
         tempfile.mkdtemp = tracking_mkdtemp
         stage = "ctor"
         try:
@@ -125,6 +131,8 @@ def one_case(case):
         finally:
             tempfile.mkdtemp = real_mkdtemp
         obs["calls"] = list(python_on_whales.CALLS)
+        op = Path(str(outdir) if outdir is not None else tempfile.gettempdir()) / "ANALYSIS.root"
+        obs["outdir_result"] = op.read_text() if op.is_file() else None
         obs["leftover_tempdirs"] = [p for p in created if os.path.exists(p)]
         obs["expected_outdir"] = str(outdir) if outdir is not None else tempfile.gettempdir()
         obs["default_image"] = default_image
@@ -187,9 +195,11 @@ def judge(case, o):
         probs.append(f"filelist.txt at container start was {c.get('filelist')!r}")
     if not c.get("runner_executable"):
         probs.append("runner.sh not present/executable in the mounted package")
-    if kind in ("fail", "fail-at-call"):
+    if kind in ("fail", "fail-at-call", "fail-wr"):
         if not o.get("exc_is_docker"):
             probs.append(f"container failure did not propagate (got {o.get('exc_type')}, returned {o.get('returned')})")
+        if o.get("outdir_result") == f"RESULT {o['nonce']}\n":
+            probs.append("the failed run's output was placed in the output directory")
         return probs
     if kind == "no-result":
         if "exc_type" not in o:
